@@ -16,14 +16,19 @@ ASSUMPTIONS = [
     "end-to-end bound only for strategies run with max_live_trade_count=1, no force, no removals with price reduction in the file",
     "tolerance 0.011 (two 2-dp roundings)",
 ]
-WEIGHTS = [("plain", 3), ("deep", 3), ("hostile", 2), ("multi", 1), ("lines", 1), ("recorded", 1)]
+WEIGHTS = [("plain", 3), ("deep", 3), ("hostile", 2), ("multi", 1), ("lines", 1), ("recorded", 1), ("availprices", 1)]
 
 
 def _limits(rng):
     def one(choices):
         return rng.choice(choices)
 
-    return {"order": one((None, 3.0, 10.0, 40.0)), "selection": one((None, 5.0, 20.0, 100.0)), "market": one((None, None, 10.0, 60.0))}
+    lim = {"order": one((None, 3.0, 10.0, 40.0)), "selection": one((None, 5.0, 20.0, 100.0)), "market": one((None, None, 10.0, 60.0))}
+    if rng.random() < 0.08:
+        # a limit of zero is a limit (nothing may be risked), alone or next to others that are zero or not set
+        which = rng.choice((("order",), ("selection",), ("market",), ("order", "selection", "market")))
+        lim = {k: (0 if k in which else (lim[k] if rng.random() < 0.3 else None)) for k in lim}
+    return lim
 
 
 def plan(tier, seed):
@@ -68,6 +73,8 @@ def build(desc):
             s["disciplined"] = False
         return case, snaps
     disciplined = desc["idx"] % 2 == 0
+    if desc.get("profile") == "availprices":
+        disciplined = (desc["idx"] // 12) % 2 == 0  # (this profile only falls on odd indices)
     d = dict(desc)
     mp = dict(_sim.PROFILES[desc["profile"]]["market_params"])
     mp.update(p_removal=0.0 if disciplined else 0.15, market_types=("WIN", "PLACE"), winners=(1, 2), n_runners=(2, 5))
